@@ -429,6 +429,72 @@ theorem run_fires_ids (c : Cfg) (s : State) (ops : List Op)
             exact ⟨p, hp, by rw [hf0]⟩
           · exact h2' f hf
 
+/-! ## liveness side: an arming that is neither superseded nor reaped stays enabled -/
+
+/-- ops that leave arming `id` waiting: other goroutines expiring or leaving, cancellation of the context -/
+def quietFor (id : Nat) : Op → Bool
+  | .expire j _ => j != id
+  | .reap j => j != id
+  | .cancel => true
+  | .arm _ _ _ => false
+  | .register _ => false
+
+/-- arming `p` is still waiting on its timer, it is the armed round, and handler `k` is in force -/
+structure Waiting (s : State) (p : Pend) (k : Nat) : Prop where
+  mem : p ∈ s.pending
+  armed : s.armed = p.round
+  handler : s.handler = some k
+
+theorem waiting_step (c : Cfg) (s : State) (p : Pend) (k : Nat) (op : Op)
+    (hw : Waiting s p k) (hq : quietFor p.id op = true) : Waiting (step c s op).1 p k := by
+  cases op with
+  | arm h r now => simp [quietFor] at hq
+  | register k' => simp [quietFor] at hq
+  | cancel => exact ⟨hw.mem, hw.armed, hw.handler⟩
+  | reap j =>
+    have hj : (p.id != j) = true := by
+      simp [quietFor] at hq
+      simp
+      exact fun h => hq h.symm
+    simp only [step]
+    split
+    · exact ⟨List.mem_filter.mpr ⟨hw.mem, hj⟩, hw.armed, hw.handler⟩
+    · exact hw
+  | expire j now =>
+    have hj : (p.id != j) = true := by
+      simp [quietFor] at hq
+      simp
+      exact fun h => hq h.symm
+    simp only [step]
+    split
+    · exact hw
+    · split
+      · exact hw
+      · exact ⟨List.mem_filter.mpr ⟨hw.mem, hj⟩, hw.armed, hw.handler⟩
+
+theorem waiting_run (c : Cfg) (s : State) (p : Pend) (k : Nat) (ops : List Op)
+    (hw : Waiting s p k) (hq : ∀ op ∈ ops, quietFor p.id op = true) : Waiting (run c s ops).1 p k := by
+  induction ops generalizing s with
+  | nil => exact hw
+  | cons x xs ih =>
+    exact ih _ (waiting_step c s p k x hw (hq x List.mem_cons_self)) (fun op h => hq op (List.mem_cons_of_mem _ h))
+
+theorem find_of_nodup_ids (l : List Pend) (p : Pend) (hp : p ∈ l) (hnd : (l.map (·.id)).Nodup) :
+    l.find? (fun q => q.id == p.id) = some p := by
+  induction l with
+  | nil => cases hp
+  | cons a l ih =>
+    simp only [List.map_cons, List.nodup_cons, List.mem_map, not_exists, not_and] at hnd
+    simp only [List.find?_cons]
+    rcases List.mem_cons.mp hp with rfl | hp'
+    · simp
+    · have hne : (a.id == p.id) = false := by
+        have := hnd.1 p hp'
+        simp
+        exact fun h => this h.symm
+      simp only [hne]
+      exact ih hp' hnd.2
+
 /-! ## controller half -/
 
 namespace Ctl
